@@ -376,7 +376,9 @@ class CrystalMap:
         array([0, 0, 1, 1])
         """
         orig_shape = self._original_shape
-        if len(orig_shape) == 1:
+        if len(orig_shape) == 0:  # Single point
+            orig_shape = (1, 1)
+        elif len(orig_shape) == 1:
             if self.x is None:
                 orig_shape += (1,)
             else:
@@ -402,7 +404,9 @@ class CrystalMap:
         array([0, 1, 0, 1])
         """
         shape = self._original_shape
-        if len(shape) == 1:
+        if len(shape) == 0:  # Single point
+            shape = (1, 1)
+        elif len(shape) == 1:
             if self.x is None:
                 shape += (1,)
             else:
@@ -852,7 +856,7 @@ class CrystalMap:
         # TODO: Better account for `item.shape`, e.g. quaternions
         #  (item.shape[-1] == 4) in a more general way than here (not
         #  more if/else)!
-        map_size = np.prod(map_shape)
+        map_size = int(np.prod(map_shape))
         if isinstance(item, np.ndarray):
             array = np.empty(map_size, dtype=item.dtype)
             # Assume RGB (one value per point if 1D)
